@@ -565,15 +565,21 @@ Proof.
   pose proof (Z.div_mod h4 (2 ^ 24) ltac:(lia)) as D4. pose proof (Z.mod_pos_bound h4 (2 ^ 24) ltac:(lia)) as R4.
   set (a1 := h1 / 2 ^ 6) in *. set (b1 := h1 mod 2 ^ 6) in *. set (a2 := h2 / 2 ^ 12) in *. set (b2 := h2 mod 2 ^ 12) in *.
   set (a3 := h3 / 2 ^ 18) in *. set (b3 := h3 mod 2 ^ 18) in *. set (a4 := h4 / 2 ^ 24) in *. set (b4 := h4 mod 2 ^ 24) in *.
+  assert (Ha1 : 0 <= a1 < 2 ^ 20).
+  { change (2 ^ 26) with 67108864 in *. change (2 ^ 6) with 64 in *. change (2 ^ 20) with 1048576. lia. }
+  assert (Ha2 : 0 <= a2 < 2 ^ 14).
+  { change (2 ^ 26) with 67108864 in *. change (2 ^ 12) with 4096 in *. change (2 ^ 14) with 16384. lia. }
+  assert (Ha3 : 0 <= a3 < 2 ^ 8).
+  { change (2 ^ 26) with 67108864 in *. change (2 ^ 18) with 262144 in *. change (2 ^ 8) with 256. lia. }
+  assert (Ha4 : 0 <= a4 < 4).
+  { change (2 ^ 26) with 67108864 in *. change (2 ^ 24) with 16777216 in *. lia. }
+  rewrite (lor_low_high h0 b1 26) by lia.
+  rewrite (lor_low_high a1 b2 20) by lia.
+  rewrite (lor_low_high a2 b3 14) by lia.
+  rewrite (lor_low_high a3 b4 8) by lia.
   change (2 ^ 26) with 67108864 in *. change (2 ^ 6) with 64 in *. change (2 ^ 12) with 4096 in *.
   change (2 ^ 18) with 262144 in *. change (2 ^ 24) with 16777216 in *.
-  assert (Ha1 : 0 <= a1 < 1048576) by lia. assert (Ha2 : 0 <= a2 < 16384) by lia.
-  assert (Ha3 : 0 <= a3 < 256) by lia. assert (Ha4 : 0 <= a4 < 4) by lia.
-  rewrite (lor_low_high h0 b1 26) by (change (2 ^ 26) with 67108864; lia).
-  change 1048576 with (2 ^ 20) in Ha1. rewrite (lor_low_high a1 b2 20) by lia.
-  change 16384 with (2 ^ 14) in Ha2. rewrite (lor_low_high a2 b3 14) by lia.
-  change 256 with (2 ^ 8) in Ha3. rewrite (lor_low_high a3 b4 8) by lia.
-  change (2 ^ 26) with 67108864. change (2 ^ 20) with 1048576 in *. change (2 ^ 14) with 16384 in *. change (2 ^ 8) with 256 in *.
+  change (2 ^ 20) with 1048576 in *. change (2 ^ 14) with 16384 in *. change (2 ^ 8) with 256 in *.
   rewrite (w32_small (h0 + 67108864 * b1)) by (change (2 ^ 32) with 4294967296; lia).
   rewrite (w32_small (a1 + 1048576 * b2)) by (change (2 ^ 32) with 4294967296; lia).
   rewrite (w32_small (a2 + 16384 * b3)) by (change (2 ^ 32) with 4294967296; lia).
@@ -597,17 +603,17 @@ Proof.
   destruct (split32 (k0 + p0) ltac:(lia)) as (c0 & o0 & E0 & L0 & C0 & Q0 & M0).
   change (2 ^ 32) with 4294967296 in *.
   assert (C0' : c0 <= 1) by lia.
-  rewrite (shiftr_div (k0 + p0) 32) by lia. change (2 ^ 32) with 4294967296. rewrite Q0.
+  rewrite Q0.
   rewrite (w64_small (k1 + p1 + c0)) by (change (2 ^ 64) with 18446744073709551616; lia).
   destruct (split32 (k1 + p1 + c0) ltac:(lia)) as (c1 & o1 & E1 & L1 & C1 & Q1 & M1).
   change (2 ^ 32) with 4294967296 in *.
   assert (C1' : c1 <= 1) by lia.
-  rewrite (shiftr_div (k1 + p1 + c0) 32) by lia. change (2 ^ 32) with 4294967296. rewrite Q1.
+  rewrite Q1.
   rewrite (w64_small (k2 + p2 + c1)) by (change (2 ^ 64) with 18446744073709551616; lia).
   destruct (split32 (k2 + p2 + c1) ltac:(lia)) as (c2 & o2 & E2 & L2 & C2 & Q2 & M2).
   change (2 ^ 32) with 4294967296 in *.
   assert (C2' : c2 <= 1) by lia.
-  rewrite (shiftr_div (k2 + p2 + c1) 32) by lia. change (2 ^ 32) with 4294967296. rewrite Q2.
+  rewrite Q2.
   rewrite (w64_small (k3 + p3 + c2)) by (change (2 ^ 64) with 18446744073709551616; lia).
   destruct (split32 (k3 + p3 + c2) ltac:(lia)) as (c3 & o3 & E3 & L3 & C3 & Q3 & M3).
   change (2 ^ 32) with 4294967296 in *.
@@ -647,4 +653,322 @@ Proof.
   replace (o1 + 2 ^ 32 * o2 + 2 ^ 64 * o3) with (o1 + 2 ^ 32 * (o2 + 2 ^ 32 * o3))
     by (change (2 ^ 32) with 4294967296; change (2 ^ 64) with 18446744073709551616; ring).
   rewrite (Hm o1) by lia. rewrite (Hm o2) by lia. reflexivity.
+Qed.
+
+Theorem finish_correct h pad : limbs_ok h -> pad_ok pad ->
+  donna_finish h pad = le_bytes 16 ((lval h mod P1305 + pad_val pad) mod 2 ^ 128).
+Proof.
+  intros Hh Hp. unfold donna_finish.
+  destruct (full_carry_correct h Hh) as [H1 E1].
+  destruct (freeze_correct _ H1) as [H2 E2].
+  rewrite (pack_correct _ pad H2 Hp). rewrite E2, E1. reflexivity.
+Qed.
+
+(* ---------- poly1305_init: the clamped r in limbs ---------- *)
+Lemma land_limbs a b c d k : 0 <= k -> 0 <= a < 2 ^ k -> 0 <= c < 2 ^ k ->
+  Z.land (a + 2 ^ k * b) (c + 2 ^ k * d) = Z.land a c + 2 ^ k * Z.land b d.
+Proof.
+  intros Hk Ha Hc.
+  rewrite <- (lor_low_high a b k Hk Ha), <- (lor_low_high c d k Hk Hc).
+  rewrite Z.land_lor_distr_l, !Z.land_lor_distr_r.
+  rewrite (land_low_high a d k Hk Ha).
+  rewrite (Z.land_comm (2 ^ k * b) c), (land_low_high c b k Hk Hc).
+  rewrite Z.lor_0_r, Z.lor_0_l.
+  assert (Hbd : Z.land (2 ^ k * b) (2 ^ k * d) = 2 ^ k * Z.land b d).
+  { rewrite !(Z.mul_comm (2 ^ k)), <- !Z.shiftl_mul_pow2 by lia. symmetry. apply Z.shiftl_land. }
+  rewrite Hbd. apply lor_low_high; [exact Hk|].
+  split; [apply Z.land_nonneg; lia|].
+  (* land a c <= a < 2^k *)
+  assert (Hm : Z.land a c = Z.land (Z.land a c) (Z.ones k)).
+  { rewrite <- Z.land_assoc. f_equal. rewrite Z.land_ones by lia. symmetry. apply Z.mod_small. exact Hc. }
+  rewrite Hm, Z.land_ones by lia. apply Z.mod_pos_bound. lia.
+Qed.
+
+Definition CLAMP : Z := 0x0ffffffc0ffffffc0ffffffc0fffffff.
+Lemma clamp_limbs : CLAMP = 0x3ffffff + 2 ^ 26 * (0x3ffff03 + 2 ^ 26 * (0x3ffc0ff + 2 ^ 26 * (0x3f03fff + 2 ^ 26 * 0x00fffff))).
+Proof. reflexivity. Qed.
+
+Lemma land_sub_M26 y c : Z.land M26 c = c -> Z.land y c = Z.land (Z.land y M26) c.
+Proof. intros Hc. rewrite <- Z.land_assoc, Hc. reflexivity. Qed.
+
+Lemma rd32_firstn16 key off : (off + 4 <= 16)%nat -> rd32 key off = rd32 (firstn 16 key) off.
+Proof.
+  intros H. unfold rd32. rewrite skipn_firstn_comm, firstn_firstn. rewrite Nat.min_l by lia. reflexivity.
+Qed.
+
+Lemma land_lt26 x c : Z.land c M26 = c -> 0 <= Z.land x c < 2 ^ 26.
+Proof.
+  intros Hc. rewrite <- Hc, Z.land_assoc, land_M26. apply Z.mod_pos_bound. lia.
+Qed.
+
+Lemma donna_r_correct key : bytes_ok key -> length key = 32%nat ->
+  r_ok (donna_r key) /\ lval (donna_r key) = poly_clamp (le_value (firstn 16 key)).
+Proof.
+  intros Hok Hl.
+  assert (Hok16 : bytes_ok (firstn 16 key)) by (apply bytes_ok_firstn; exact Hok).
+  assert (Hl16 : length (firstn 16 key) = 16%nat) by (apply firstn_length_le; lia).
+  destruct (msg_limbs (firstn 16 key) Hok16 Hl16) as (E0 & E1 & E2 & E3 & E4 & HK).
+  set (K := le_value (firstn 16 key)) in *.
+  unfold donna_r. rewrite !(rd32_firstn16 key) by lia.
+  rewrite (land_sub_M26 (Z.shiftr (rd32 (firstn 16 key) 3) 2) 0x3ffff03) by reflexivity.
+  rewrite (land_sub_M26 (Z.shiftr (rd32 (firstn 16 key) 6) 4) 0x3ffc0ff) by reflexivity.
+  rewrite (land_sub_M26 (Z.shiftr (rd32 (firstn 16 key) 9) 6) 0x3f03fff) by reflexivity.
+  change 0x3ffffff with M26 at 1. rewrite E0, E1, E2, E3, E4.
+  split.
+  - unfold r_ok, limbs_lt.
+    refine (conj _ (conj _ (conj _ (conj _ _)))).
+    + apply Z.mod_pos_bound. lia.
+    + apply land_lt26. reflexivity.
+    + apply land_lt26. reflexivity.
+    + apply land_lt26. reflexivity.
+    + apply land_lt26. reflexivity.
+  - unfold poly_clamp. fold CLAMP. rewrite clamp_limbs.
+    pose proof (base26 K ltac:(lia)) as Hb.
+    set (k0 := K mod 2 ^ 26) in *. set (k1 := (K / 2 ^ 26) mod 2 ^ 26) in *. set (k2 := (K / 2 ^ 52) mod 2 ^ 26) in *.
+    set (k3 := (K / 2 ^ 78) mod 2 ^ 26) in *. set (k4 := K / 2 ^ 104) in *.
+    assert (HKl : K = k0 + 2 ^ 26 * (k1 + 2 ^ 26 * (k2 + 2 ^ 26 * (k3 + 2 ^ 26 * k4)))).
+    { rewrite <- Hb. change (2 ^ 52) with (2 ^ 26 * 2 ^ 26). change (2 ^ 78) with (2 ^ 26 * 2 ^ 26 * 2 ^ 26).
+      change (2 ^ 104) with (2 ^ 26 * 2 ^ 26 * 2 ^ 26 * 2 ^ 26). ring. }
+    rewrite HKl at 1.
+    assert (T0 : 0 <= k0 < 2 ^ 26) by (apply Z.mod_pos_bound; lia).
+    assert (T1 : 0 <= k1 < 2 ^ 26) by (apply Z.mod_pos_bound; lia).
+    assert (T2 : 0 <= k2 < 2 ^ 26) by (apply Z.mod_pos_bound; lia).
+    assert (T3 : 0 <= k3 < 2 ^ 26) by (apply Z.mod_pos_bound; lia).
+    rewrite !land_limbs by (try assumption; try lia; change (2 ^ 26) with 67108864; lia).
+    unfold lval.
+    change (2 ^ 52) with (2 ^ 26 * 2 ^ 26). change (2 ^ 78) with (2 ^ 26 * 2 ^ 26 * 2 ^ 26).
+    change (2 ^ 104) with (2 ^ 26 * 2 ^ 26 * 2 ^ 26 * 2 ^ 26).
+    assert (H0 : Z.land k0 67108863 = k0).
+    { change 67108863 with M26. rewrite land_M26. apply Z.mod_small. exact T0. }
+    rewrite H0.
+    change (Z.land (rd32 (firstn 16 key) 0) 67108863) with (Z.land (rd32 (firstn 16 key) 0) M26). rewrite E0. fold k0. ring.
+Qed.
+
+Lemma rd32_bound m off : bytes_ok m -> (off + 4 <= length m)%nat -> 0 <= rd32 m off < 2 ^ 32.
+Proof. intros Hok Hl. rewrite rd32_slice by assumption. apply Z.mod_pos_bound. lia. Qed.
+
+Lemma donna_pad_correct key : bytes_ok key -> length key = 32%nat ->
+  pad_ok (donna_pad key) /\ pad_val (donna_pad key) = le_value (firstn 16 (skipn 16 key)).
+Proof.
+  intros Hok Hl. unfold donna_pad, pad_ok, pad_val.
+  split; [repeat split; apply rd32_bound; try assumption; lia|].
+  do 32 (destruct key as [|? key]; [discriminate|]). destruct key; [|discriminate].
+  unfold rd32. cbn [skipn firstn le_value]. ring.
+Qed.
+
+(* ---------- the limb code computes Poly1305 ---------- *)
+Lemma le_value_app_zeros l k : le_value (l ++ zeros k) = le_value l.
+Proof. rewrite le_value_app, le_value_zeros. lia. Qed.
+
+Theorem donna_mac_eq_spec key msg : bytes_ok key -> length key = 32%nat -> bytes_ok msg ->
+  donna_mac key msg = poly1305_spec key msg.
+Proof.
+  intros Hkok Hkl Hmok. unfold donna_mac, poly1305_spec.
+  destruct (donna_r_correct key Hkok Hkl) as [Hr Er].
+  destruct (donna_pad_correct key Hkok Hkl) as [Hp Ep].
+  set (r := poly_clamp (le_value (firstn 16 key))) in *.
+  set (n := (length msg / 16)%nat).
+  assert (Hn : (16 * n <= length msg)%nat) by (unfold n; apply Nat.mul_div_le; lia).
+  destruct (donna_blocks_correct n (donna_r key) Hr (0, 0, 0, 0, 0) msg limbs_ok_zero Hmok Hn) as [Hh Eh].
+  rewrite Er in Eh. change (lval (0, 0, 0, 0, 0) mod P1305) with 0 in Eh.
+  rewrite blocks_h_process in Eh.
+  rewrite (accumulate_absorb r (length msg) msg 0) by lia.
+  unfold absorb. cbn [fst snd app]. fold n.
+  set (h := donna_blocks n (donna_r key) (2 ^ 24) (0, 0, 0, 0, 0) msg) in *.
+  set (rest := skipn (n * 16) msg).
+  assert (Hrl : (length rest < 16)%nat).
+  { unfold rest. rewrite skipn_length. pose proof (Nat.div_mod (length msg) 16 ltac:(lia)) as Hdm.
+    pose proof (Nat.mod_upper_bound (length msg) 16 ltac:(lia)). fold n in Hdm. lia. }
+  pose proof (pprocess_range r n 0 msg ltac:(pose proof P1305_pos; lia)) as Hrange.
+  destruct (length rest =? 0)%nat eqn:E0.
+  - apply Nat.eqb_eq in E0.
+    assert (E0' : (0 <? length rest)%nat = false) by (apply Nat.ltb_ge; lia). rewrite E0'.
+    rewrite (finish_correct h _ Hh Hp). rewrite Eh, Ep.
+    rewrite (Z.mod_small (pprocess r n 0 msg) P1305) by exact Hrange.
+    change (2 ^ 128) with (2 ^ (8 * Z.of_nat 16)). apply le_bytes_mod.
+  - apply Nat.eqb_neq in E0.
+    assert (E0' : (0 <? length rest)%nat = true) by (apply Nat.ltb_lt; lia). rewrite E0'.
+    change (rest ++ 1%N :: zeros (16 - length rest - 1)) with (rest ++ [1%N] ++ zeros (16 - length rest - 1)).
+    set (blk := rest ++ [1%N] ++ zeros (16 - length rest - 1)).
+    assert (Hblk_ok : bytes_ok blk).
+    { unfold blk, bytes_ok. apply Forall_app. split; [apply bytes_ok_skipn; exact Hmok|].
+      apply Forall_app. split; [constructor; [reflexivity | constructor]|].
+      unfold zeros. apply Forall_forall. intros x Hx. apply repeat_spec in Hx. subst x. reflexivity. }
+    assert (Hblk_l : length blk = 16%nat).
+    { unfold blk. rewrite !app_length. unfold zeros. rewrite repeat_length. cbn [length]. lia. }
+    destruct (donna_block_correct (donna_r key) 0 h blk Hr Hh Hblk_ok Hblk_l ltac:(auto)) as [Hh' Eb].
+    rewrite (finish_correct _ _ Hh' Hp). rewrite Eb, Er, Ep.
+    rewrite Z.mul_0_r, Z.add_0_r.
+    assert (Hblkv : le_value blk = le_value (rest ++ [1%N])).
+    { unfold blk. rewrite app_assoc. apply le_value_app_zeros. }
+    rewrite Hblkv.
+    assert (Hcong : ((lval h + le_value (rest ++ [1%N])) * r) mod P1305 =
+                    (r * (pprocess r n 0 msg + le_value (rest ++ [1%N]))) mod P1305).
+    { rewrite (Z.mul_comm r). rewrite Zmult_mod. rewrite <- (Zplus_mod_idemp_l (lval h)). rewrite Eh.
+      rewrite Zplus_mod_idemp_l. rewrite <- Zmult_mod. reflexivity. }
+    rewrite Hcong.
+    change (2 ^ 128) with (2 ^ (8 * Z.of_nat 16)). apply le_bytes_mod.
+Qed.
+
+(* ---------- the incremental limb-level object simulates the number-level one ---------- *)
+Lemma blocks_h_range n r final : forall h m, 0 <= h < P1305 -> 0 <= poly_blocks_h n r final h m < P1305.
+Proof.
+  induction n as [|n IH]; intros h m Hh; [exact Hh|]. cbn [poly_blocks_h]. apply IH.
+  unfold poly_block_step. apply Z.mod_pos_bound. exact P1305_pos.
+Qed.
+
+Definition Sim (n : poly1305_ctx) (l : donna_ctx) : Prop :=
+  p_r n = lval (d_r l) /\ r_ok (d_r l) /\ p_h n = lval (d_h l) mod P1305 /\ limbs_ok (d_h l) /\
+  p_pad n = pad_val (d_pad l) /\ pad_ok (d_pad l) /\
+  p_leftover n = d_leftover l /\ p_buffer n = d_buffer l /\ p_final n = false /\ d_final l = false /\
+  length (d_buffer l) = 16%nat /\ (d_leftover l < 16)%nat /\ bytes_ok (firstn (d_leftover l) (d_buffer l)).
+
+Lemma blocks_sim n l m bytes : Sim n l -> bytes_ok m -> (16 * (bytes / 16) <= length m)%nat ->
+  forall lo buf, length buf = 16%nat -> (lo < 16)%nat -> bytes_ok (firstn lo buf) ->
+  Sim (set_leftover (poly1305_blocks n m bytes) buf lo) (donna_set_leftover (donna_ctx_blocks l m bytes) buf lo).
+Proof.
+  intros (Hr & Hrok & Hh & Hhok & Hp & Hpok & Hlo & Hb & Hf & Hfl & Hbl & Hlt & Hbok) Hm Hlen lo buf Hbufl Hlolt Hbufok.
+  destruct (donna_blocks_correct (bytes / 16) (d_r l) Hrok (d_h l) m Hhok Hm Hlen) as [Hok' E].
+  unfold Sim, set_leftover, donna_set_leftover, poly1305_blocks, donna_ctx_blocks.
+  cbn [p_r p_h p_pad p_leftover p_buffer p_final d_r d_h d_pad d_leftover d_buffer d_final].
+  rewrite Hfl, Hf.
+  refine (conj Hr (conj Hrok (conj _ (conj Hok' (conj Hp (conj Hpok (conj eq_refl (conj eq_refl
+          (conj eq_refl (conj eq_refl (conj Hbufl (conj Hlolt Hbufok)))))))))))).
+  rewrite E, <- Hr, <- Hh. symmetry. apply Z.mod_small. apply blocks_h_range.
+  rewrite Hh. apply Z.mod_pos_bound. exact P1305_pos.
+Qed.
+
+Lemma set_leftover_sim n l buf lo : Sim n l -> length buf = 16%nat -> (lo < 16)%nat -> bytes_ok (firstn lo buf) ->
+  Sim (set_leftover n buf lo) (donna_set_leftover l buf lo).
+Proof.
+  intros (Hr & Hrok & Hh & Hhok & Hp & Hpok & Hlo & Hb & Hf & Hfl & Hbl & Hlt & Hbok) Hbufl Hlolt Hbufok.
+  unfold Sim, set_leftover, donna_set_leftover.
+  cbn [p_r p_h p_pad p_leftover p_buffer p_final d_r d_h d_pad d_leftover d_buffer d_final].
+  refine (conj Hr (conj Hrok (conj Hh (conj Hhok (conj Hp (conj Hpok (conj eq_refl (conj eq_refl
+          (conj Hf (conj Hfl (conj Hbufl (conj Hlolt Hbufok)))))))))))).
+Qed.
+
+Lemma set_leftover_same n : set_leftover n (p_buffer n) (p_leftover n) = n.
+Proof. destruct n; reflexivity. Qed.
+Lemma donna_set_leftover_same l : donna_set_leftover l (d_buffer l) (d_leftover l) = l.
+Proof. destruct l; reflexivity. Qed.
+
+Lemma bytes_ok_app a b : bytes_ok a -> bytes_ok b -> bytes_ok (a ++ b).
+Proof. intros Ha Hb. unfold bytes_ok. apply Forall_app. split; assumption. Qed.
+
+Lemma update_tail_sim n l m : Sim n l -> d_leftover l = 0%nat -> bytes_ok m ->
+  Sim (poly1305_update_tail n m) (donna_update_tail l m).
+Proof.
+  intros HS Hlo0 Hm. pose proof HS as (Hr & Hrok & Hh & Hhok & Hp & Hpok & Hlo & Hb & Hf & Hfl & Hbl & Hlt & Hbok).
+  unfold poly1305_update_tail, donna_update_tail.
+  pose proof (Nat.mod_upper_bound (length m) 16 ltac:(lia)) as Hub.
+  pose proof (Nat.div_mod (length m) 16 ltac:(lia)) as Hdm.
+  destruct (16 <=? length m)%nat eqn:E16.
+  - (* whole blocks, then the remainder *)
+    set (want := (length m / 16 * 16)%nat).
+    assert (Hw : (want / 16 = length m / 16)%nat) by (unfold want; apply Nat.div_mul; lia).
+    assert (Hlen : (16 * (want / 16) <= length m)%nat) by (rewrite Hw; lia).
+    assert (Hl2 : length (skipn want m) = (length m mod 16)%nat) by (rewrite skipn_length; unfold want; lia).
+    destruct (0 <? length (skipn want m))%nat eqn:E3.
+    + cbn [p_buffer p_leftover d_buffer d_leftover poly1305_blocks donna_ctx_blocks].
+      rewrite Hlo, Hb, Hlo0. cbn [Nat.add].
+      apply (blocks_sim n l m want HS Hm Hlen).
+      * unfold memcpy. cbn [firstn app Nat.add]. rewrite app_length, (skipn_length (length (skipn want m)) (d_buffer l)). lia.
+      * lia.
+      * unfold memcpy. cbn [firstn app Nat.add]. rewrite firstn_exact_app. apply bytes_ok_skipn. exact Hm.
+    + pose proof (blocks_sim n l m want HS Hm Hlen (d_leftover l) (d_buffer l) Hbl Hlt Hbok) as H.
+      unfold poly1305_blocks, donna_ctx_blocks, set_leftover, donna_set_leftover in *.
+      cbn [p_r p_h p_pad p_leftover p_buffer p_final d_r d_h d_pad d_leftover d_buffer d_final] in *.
+      rewrite Hlo, Hb. exact H.
+  - apply Nat.leb_gt in E16.
+    destruct (0 <? length m)%nat eqn:E3.
+    + rewrite Hlo, Hb, Hlo0. cbn [Nat.add].
+      apply set_leftover_sim; [exact HS | | lia |].
+      * unfold memcpy. cbn [firstn app Nat.add]. rewrite app_length, (skipn_length (length m) (d_buffer l)). lia.
+      * unfold memcpy. cbn [firstn app Nat.add]. rewrite firstn_exact_app. exact Hm.
+    + exact HS.
+Qed.
+
+Lemma blocks_after_set_leftover n buf lo m bytes buf2 lo2 :
+  set_leftover (poly1305_blocks (set_leftover n buf lo) m bytes) buf2 lo2 = set_leftover (poly1305_blocks n m bytes) buf2 lo2.
+Proof. destruct n; reflexivity. Qed.
+Lemma donna_blocks_after_set_leftover l buf lo m bytes buf2 lo2 :
+  donna_set_leftover (donna_ctx_blocks (donna_set_leftover l buf lo) m bytes) buf2 lo2 =
+  donna_set_leftover (donna_ctx_blocks l m bytes) buf2 lo2.
+Proof. destruct l; reflexivity. Qed.
+
+Lemma update_sim n l m : Sim n l -> bytes_ok m -> Sim (poly1305_update n m) (donna_update l m).
+Proof.
+  intros HS Hm. pose proof HS as (Hr & Hrok & Hh & Hhok & Hp & Hpok & Hlo & Hb & Hf & Hfl & Hbl & Hlt & Hbok).
+  unfold poly1305_update, donna_update. rewrite Hlo, Hb.
+  destruct (negb (d_leftover l =? 0)%nat) eqn:Enz.
+  - apply negb_true_iff, Nat.eqb_neq in Enz.
+    set (want := Nat.min (16 - d_leftover l) (length m)).
+    set (buf' := memcpy (d_buffer l) (d_leftover l) (firstn want m)).
+    assert (Hwl : length (firstn want m) = want) by (apply firstn_length_le; unfold want; lia).
+    assert (Hbuf'len : length buf' = 16%nat).
+    { unfold buf', memcpy. rewrite !app_length, skipn_length, firstn_length_le, Hwl by lia. unfold want. lia. }
+    assert (Hbuf'pre : firstn (d_leftover l + want) buf' = firstn (d_leftover l) (d_buffer l) ++ firstn want m).
+    { unfold buf'. rewrite <- Hwl at 1. apply memcpy_prefix'; [reflexivity | apply firstn_length_le; lia]. }
+    assert (Hbuf'ok : bytes_ok (firstn (d_leftover l + want) buf')).
+    { rewrite Hbuf'pre. apply bytes_ok_app; [exact Hbok | apply bytes_ok_firstn; exact Hm]. }
+    destruct (d_leftover l + want <? 16)%nat eqn:Elt.
+    + apply Nat.ltb_lt in Elt. apply set_leftover_sim; assumption.
+    + apply Nat.ltb_ge in Elt.
+      assert (Hw16 : (d_leftover l + want = 16)%nat) by (unfold want in *; lia).
+      assert (Hbuf'all : bytes_ok buf') by (rewrite Hw16, firstn_all2 in Hbuf'ok by lia; exact Hbuf'ok).
+      rewrite blocks_after_set_leftover, donna_blocks_after_set_leftover.
+      assert (HS2 : Sim (set_leftover (poly1305_blocks n buf' 16) buf' 0) (donna_set_leftover (donna_ctx_blocks l buf' 16) buf' 0)).
+      { apply (blocks_sim n l buf' 16 HS Hbuf'all); try assumption; try lia.
+        - change (16 / 16)%nat with 1%nat. lia.
+        - constructor. }
+      apply update_tail_sim; [exact HS2 | reflexivity | apply bytes_ok_skipn; exact Hm].
+  - apply negb_false_iff, Nat.eqb_eq in Enz. apply update_tail_sim; assumption.
+Qed.
+
+Lemma fold_update_sim chunks : forall n l, Sim n l -> Forall bytes_ok chunks ->
+  Sim (fold_left poly1305_update chunks n) (fold_left donna_update chunks l).
+Proof.
+  induction chunks as [|c cs IH]; intros n l HS Hok; [exact HS|].
+  inversion Hok as [|? ? Hc Hcs]; subst. cbn [fold_left]. apply IH; [apply update_sim; assumption | exact Hcs].
+Qed.
+
+Lemma init_sim ubuf key : bytes_ok key -> length key = 32%nat -> length ubuf = 16%nat ->
+  Sim (poly1305_init ubuf key) (donna_init ubuf key).
+Proof.
+  intros Hok Hl Hu. destruct (donna_r_correct key Hok Hl) as [Hr Er]. destruct (donna_pad_correct key Hok Hl) as [Hp Ep].
+  unfold Sim, poly1305_init, donna_init.
+  cbn [p_r p_h p_pad p_leftover p_buffer p_final d_r d_h d_pad d_leftover d_buffer d_final firstn].
+  refine (conj (eq_sym Er) (conj Hr (conj eq_refl (conj limbs_ok_zero (conj (eq_sym Ep) (conj Hp (conj eq_refl (conj eq_refl
+          (conj eq_refl (conj eq_refl (conj Hu (conj _ _)))))))))))); [lia | constructor].
+Qed.
+
+Lemma finish_sim n l : Sim n l -> poly1305_finish n = donna_ctx_finish l.
+Proof.
+  intros (Hr & Hrok & Hh & Hhok & Hp & Hpok & Hlo & Hb & Hf & Hfl & Hbl & Hlt & Hbok).
+  unfold poly1305_finish, donna_ctx_finish. rewrite Hlo, Hb, Hp.
+  destruct (negb (d_leftover l =? 0)%nat) eqn:Enz.
+  - apply negb_true_iff, Nat.eqb_neq in Enz.
+    set (buf' := firstn (d_leftover l) (d_buffer l) ++ [1%N] ++ zeros (16 - d_leftover l - 1)).
+    assert (Hok' : bytes_ok buf').
+    { unfold buf'. apply bytes_ok_app; [exact Hbok|]. apply bytes_ok_app; [constructor; [reflexivity | constructor]|].
+      unfold zeros, bytes_ok. apply Forall_forall. intros x Hx. apply repeat_spec in Hx. subst x. reflexivity. }
+    assert (Hl' : length buf' = 16%nat).
+    { unfold buf'. rewrite !app_length, firstn_length_le by lia. unfold zeros. rewrite repeat_length. cbn [length]. lia. }
+    destruct (donna_block_correct (d_r l) 0 (d_h l) buf' Hrok Hhok Hok' Hl' ltac:(auto)) as [Hh' _].
+    rewrite (finish_correct _ _ Hh' Hpok).
+    pose proof (donna_block_is_step (d_r l) (d_h l) buf' true Hrok Hhok Hok' Hl') as Es. cbn iota in Es.
+    rewrite Es, <- Hr, <- Hh. rewrite Z.mod_mod by (pose proof P1305_pos; lia). reflexivity.
+  - rewrite (finish_correct _ _ Hhok Hpok). rewrite Hh. rewrite Z.mod_mod by (pose proof P1305_pos; lia). reflexivity.
+Qed.
+
+(* MAIN (limb level): Poly1305(key).Update(c1)...Update(cn).Finalize() computed with the 26-bit limb code
+   equals RFC 8439's poly1305_mac, for every fragmentation *)
+Theorem donna_stream_eq_spec ubuf key chunks :
+  length ubuf = 16%nat -> bytes_ok key -> length key = 32%nat -> Forall bytes_ok chunks ->
+  donna_stream ubuf key chunks = poly1305_spec key (concat chunks).
+Proof.
+  intros Hu Hkok Hkl Hcs. unfold donna_stream.
+  rewrite <- (finish_sim _ _ (fold_update_sim chunks _ _ (init_sim ubuf key Hkok Hkl Hu) Hcs)).
+  apply (poly1305_stream_eq_spec ubuf key chunks Hu).
 Qed.
